@@ -52,7 +52,7 @@ End Frag.
 
 Lemma sch_ty_not_one t : is_one (sch_ty t) = false.
 Proof.
-  apply is_one_none. destruct t; try reflexivity; cbn [sch_ty];
+  apply is_one_none; destruct t; try reflexivity; cbn [sch_ty];
     repeat match goal with
            | |- context [match ?x with _ => _ end] => destruct x
            end; reflexivity.
